@@ -96,6 +96,13 @@ def build_cases(root, tier, rng):
             add("keyword", pos, kw, SCHEMA, "k.xsd")
         for pos in ("opname", "partname", "svcname", "msgname", "gename"):
             add("keyword", pos, kw, WSDL if pos == "partname" else WSDL2, "k.wsdl")
+    # namespace URIs whose last path segment BEGINS with characters that Unicode calls alphanumeric but Rust does not allow in an
+    # identifier (superscripts, fractions, circled and non-ASCII digits) or that are letters outside ASCII: the abbreviation — prefix
+    # and module name — is made from the first characters of that segment
+    for seg in ("m\u00b2", "\u00bd", "\u2460\u24d0", "\u65e5\u672c", "\u00e9", "\u0663", "\u2075x"):
+        add("payload", "uri", "http://example.com/units/" + seg + MARK, SCHEMA, "k.xsd")
+        add("payload", "furi", "http://example.com/units/" + seg + MARK, SCHEMA_F, "k.xsd", {"other.xsd": SCHEMA_F_OTHER})
+        add("payload", "uri", "http://example.com/units/" + seg + MARK, WSDL2, "k.wsdl")
     for p in PAYLOADS:
         for pos in ("doc", "enum", "uri", "facet", "nfacet"):
             add("payload", pos, p, SCHEMA, "k.xsd")
